@@ -198,11 +198,30 @@ def look_through(a, prefix=""):
     # sunk into the branches (so `let next = if c {a} else {b}; f(next)` reads like `if c { f(a) } else { f(b) }`)
     import pm as _pm
     a.normalised = 0
+    # functions that are one pure expression of their parameters (no memory read): calls of them are pure
+    for f_ in a.functions():
+        b_ = f_["node"].get("body")
+        if b_ is not None and not is_test_item(f_) and len(b_["stmts"]) == 1 and b_["stmts"][0]["t"] == "ExprStmt" and not b_["stmts"][0]["semi"]:
+            e_ = b_["stmts"][0]["expr"]
+            if e_.get("t") == "Unsafe" and len(e_["block"]["stmts"]) == 1 and e_["block"]["stmts"][0]["t"] == "ExprStmt":
+                e_ = e_["block"]["stmts"][0]["expr"]
+            uniq = sum(1 for g_ in a.functions() if g_["name"] == f_["name"]) == 1
+            if _pm._const_pure(e_) and not f_["container"] and uniq and f_["node"]["sig"]["inputs"] and all(p_["t"] == "Arg" for p_ in f_["node"]["sig"]["inputs"]):
+                _pm.PURE_FNS.add(f_["name"])
     for f_ in a.functions():
         if f_["node"].get("body") is not None and not is_test_item(f_):
             before = _pm.SINK_COUNT[0] + _pm.UNGUARD_COUNT[0]
             nb = _pm.unguard_fn(f_["node"]) if not os.environ.get("HPBF_NO_UNGUARD") else f_["node"]["body"]
             nb = _pm.sink_let_if(nb)
+            # locals that only name a value computed without reading memory (`let next = ip.add(2)`, `let t = temps_ptr(cxt)`) or a place
+            # (`let m = &mut (*cxt).context.memory`) are replaced by what they name
+            try:
+                nst = _pm.normalize_stmts(nb["stmts"], light=True)
+                if len(json.dumps(nst)) != len(json.dumps(nb["stmts"])):
+                    nb = {**nb, "stmts": nst}
+                    _pm.SINK_COUNT[0] += 1
+            except (KeyError, TypeError, AttributeError):
+                pass
             if _pm.SINK_COUNT[0] + _pm.UNGUARD_COUNT[0] != before:
                 a.normalised += 1
                 f_["node"]["body"] = nb
